@@ -13,8 +13,15 @@
 //! u8, f64, f32 including +-infinity) for the comparison-only methods; i32 arithmetic on odd corners (truncating division);
 //! the Rect == Aab differential on negative-extent and odd rectangles; the pair laws that set semantics still fixes when an
 //! operand is invalid; the anchored Vec partial_min/partial_max/Clamp impls called directly; call sequences; an f32 distance tier.
+//!
+//! Second audit (out/AUDIT2.md; code after "second audit" markers): slips that are right on the exact small grid and wrong elsewhere -
+//! the remaining members of the scalar Clamp family (i8..usize, Wrapping<_>) and adjacent-float corners in the relabelling section;
+//! f64/f32 boxes whose sums and differences round (adjacent floats, nearly symmetric boxes, close points far from the origin, tiny,
+//! subnormal, huge within the magnitude policy) with oracles built from error-free transformations; the Rect == Aab differential
+//! started from the rectangle (position + extent rounds; unsigned integers).
 use rayon::prelude::*;
 use std::fmt::Debug;
+use std::num::Wrapping;
 use std::ops::*;
 use vek::geom::repr_c::{Aabb, Aabr, Rect, Rect3};
 use vek::num_traits::{real::Real, AsPrimitive, One};
@@ -1302,6 +1309,304 @@ fn distance_f32<G: Geo<D>, const D: usize>(s: &Section, u: &Uni<D>) {
 }
 
 // ------------------------------------------------------------------------------------------------
+// second audit (out/AUDIT2.md): slips that are right on the exact small grid and wrong elsewhere
+
+// (a) the remaining members of vek's scalar `Clamp` family (impl_clamp_integer! list in ops.rs): every primitive integer and its
+// `Wrapping<_>` - projected_point is the only box method that reaches a per-type impl, the relabelling section runs all of them
+macro_rules! el_plain { ($($T:ident)+) => { $(
+    impl El for $T { const NAME: &'static str = stringify!($T); fn from_u(u: i32) -> $T { <$T>::try_from(u).expect("model coordinate outside the type") } }
+)+ } }
+macro_rules! el_wrapping { ($($T:ident)+) => { $(
+    impl El for Wrapping<$T> { const NAME: &'static str = concat!("Wrapping<", stringify!($T), ">"); fn from_u(u: i32) -> Self { Wrapping(<$T>::try_from(u).expect("model coordinate outside the type")) } }
+)+ } }
+el_plain!(i8 i16 isize u16 u32 u64 usize);
+el_wrapping!(i8 i16 i32 i64 isize u8 u16 u32 u64 usize);
+/// nine strictly increasing values whose ends are the least and the greatest value of the type (same shape as T9_I32 / T9_U8)
+macro_rules! t9_signed { ($T:ty) => { [<$T>::MIN, <$T>::MIN + 1, -2, -1, 0, 1, 2, <$T>::MAX - 1, <$T>::MAX] } }
+macro_rules! t9_unsigned { ($T:ty) => { [0, 1, 2, <$T>::MAX / 2, <$T>::MAX / 2 + 1, <$T>::MAX / 2 + 2, <$T>::MAX - 2, <$T>::MAX - 1, <$T>::MAX] } }
+
+// (b) floats off the exact grid
+trait Fp: El + Real + vek::approx::RelativeEq + Into<f64> {
+    /// significand bits; exponents of the "far from the origin", "tiny" and "huge" clusters (huge^2 and tiny^2 stay normal numbers)
+    const MANT: i32; const FAR: i32; const TINY: i32; const HUGE: i32;
+    fn fp_up(self) -> Self;
+    fn fp_down(self) -> Self;
+    fn p2(k: i32) -> Self;
+    fn lit(v: f64) -> Self;
+    fn min_sub() -> Self;
+}
+impl Fp for f64 {
+    const MANT: i32 = 53; const FAR: i32 = 40; const TINY: i32 = 100; const HUGE: i32 = 500;
+    fn fp_up(self) -> f64 { self.next_up() } fn fp_down(self) -> f64 { self.next_down() }
+    fn p2(k: i32) -> f64 { 2f64.powi(k) } fn lit(v: f64) -> f64 { v } fn min_sub() -> f64 { f64::from_bits(1) }
+}
+impl Fp for f32 {
+    const MANT: i32 = 24; const FAR: i32 = 20; const TINY: i32 = 30; const HUGE: i32 = 60;
+    fn fp_up(self) -> f32 { self.next_up() } fn fp_down(self) -> f32 { self.next_down() }
+    fn p2(k: i32) -> f32 { 2f32.powi(k) } fn lit(v: f64) -> f32 { v as f32 } fn min_sub() -> f32 { f32::from_bits(1) }
+}
+/// error-free sum (Knuth): a + b == s + e exactly, s = fl(a + b); valid for all finite operands whose sum does not overflow
+fn two_sum<T: Fp>(a: T, b: T) -> (T, T) { let s = a + b; let bb = s - a; let e = (a - (s - bb)) + (b - bb); (s, e) }
+/// the floats a faithful evaluation of a + b may return: the exact sum if it is a float, else its two neighbours
+fn faithful<T: Fp>(a: T, b: T) -> [T; 2] { let (s, e) = two_sum(a, b); let z = <T as vek::num_traits::Zero>::zero(); [s, if e > z { s.fp_up() } else if e < z { s.fp_down() } else { s }] }
+/// x / 2: exact unless a subnormal loses its last bit, then either neighbour
+fn halves<T: Fp>(x: T) -> [T; 3] { let h = x / (<T as One>::one() + <T as One>::one()); if h + h == x { [h; 3] } else { [h, h.fp_up(), h.fp_down()] } }
+fn f64of<T: Fp>(v: T) -> f64 { v.into() }
+
+/// the hot list: clusters at 1 (adjacent floats, nearly symmetric about 0), 0.1/0.3, tiny, subnormal, far from the origin
+/// (2^FAR + small integers), at the end of the integer range (2^MANT, spacing 2) and huge (2^HUGE); `reduced` drops a few
+fn hot_values<T: Fp>(reduced: bool) -> Vec<T> {
+    let one = <T as One>::one();
+    let e = T::p2(1 - T::MANT);
+    let (far, big, tiny, huge) = (T::p2(T::FAR), T::p2(T::MANT), T::p2(-T::TINY), T::p2(T::HUGE));
+    let (two, three, four) = (one + one, one + one + one, one + one + one + one);
+    let mut v = vec![-huge, -(big + two), -(far + three), -(one + e), -one, -tiny, one - one, T::min_sub(), tiny, T::lit(0.1), T::lit(0.3), one - e / two, one, one + e, three,
+                     far, far + three, far + four, big, big + two, huge];
+    if !reduced { v.extend([one + e + e, big + four, huge * (one + e)]); }
+    v.sort_by(|a, b| a.partial_cmp(b).unwrap());
+    assert!(v.windows(2).all(|w| w[0] < w[1]), "hot list must be strictly increasing");
+    v
+}
+fn with_neighbours<T: Fp>(v: &[T]) -> Vec<T> {
+    let mut o: Vec<T> = v.iter().flat_map(|&x| [x.fp_down(), x, x.fp_up()]).collect();
+    o.sort_by(|a, b| a.partial_cmp(b).unwrap()); o.dedup_by(|a, b| a == b); o
+}
+/// one-hot-axis design: for every axis h, the h interval runs through all lo <= hi of `hot`, the other axes through all lo <= hi of `cold`
+/// (`hw`: weight of each hot value - its distance in the list from 1.0 - so that the lightest witness is the most readable one)
+fn hot_boxes<T: Copy, const D: usize>(hot: &[T], hw: &[u64], cold: &[T]) -> Vec<Vec<(TB<T, D>, u64)>> {
+    let iv = |l: &[T], lw: Option<&[u64]>| -> Vec<(T, T, u64)> { let mut o = Vec::new(); for i in 0..l.len() { for j in i..l.len() { o.push((l[i], l[j], match lw { Some(w) => w[i] + w[j], None => (i + j) as u64 })); } } o };
+    let (hi, ci) = (iv(hot, Some(hw)), iv(cold, None));
+    (0..D).map(|h| {
+        let mut o = Vec::new();
+        let ncomb = ci.len().pow(D as u32 - 1);
+        for &(lo, up, w) in &hi { for c in 0..ncomb {
+            let mut b = [[lo; D]; 2]; b[1][h] = up; let (mut r, mut ww) = (c, w);
+            for i in 0..D { if i != h { let (l, u, wc) = ci[r % ci.len()]; r /= ci.len(); b[0][i] = l; b[1][i] = u; ww += wc; } }
+            o.push((b, ww));
+        } }
+        o
+    }).collect()
+}
+fn hot_points<T: Copy, const D: usize>(hot: &[T], hw: &[u64], cold: &[T]) -> Vec<Vec<([T; D], u64)>> {
+    (0..D).map(|h| {
+        let mut o = Vec::new();
+        let ncomb = cold.len().pow(D as u32 - 1);
+        for (k, &x) in hot.iter().enumerate() { for c in 0..ncomb {
+            let mut p = [x; D]; let (mut r, mut w) = (c, hw[k] + 1);
+            for i in 0..D { if i != h { p[i] = cold[r % cold.len()]; w += (r % cold.len()) as u64 + 1; r /= cold.len(); } }
+            o.push((p, w));
+        } }
+        o
+    }).collect()
+}
+
+/// Arithmetic methods on float boxes whose sums and differences are NOT exact, with oracles that are exact by construction:
+/// every expected value is derived from the inputs with error-free transformations (two_sum) and comparisons only.
+fn float_arith<G: Geo<D>, T: Fp, const D: usize>(s: &Section, reduced: bool, reduced_pairs: bool) {
+    let n = |m: &str| sa::<G, T, D>(m);
+    let (st_c, st_s, st_h, st_ir, st_rf, st_p, st_d, st_cv) = (n("center"), n("size"), n("half_size"), n(G::INTO_RECT), format!("{}::from({})<{}>", G::RECT, G::AAB, T::NAME), n("projected_point"), n("distance_to_point"), n(G::CV_AAB));
+    let z = <T as vek::num_traits::Zero>::zero();
+    let one = <T as One>::one();
+    let hot = hot_values::<T>(reduced);
+    let hotp = with_neighbours(&hot);
+    let cold: Vec<T> = if D == 2 { vec![-one, T::lit(0.1), T::p2(T::FAR) + one + one + one + one] } else { vec![-one, T::p2(T::FAR) + one + one + one + one] };
+    let coldp: Vec<T> = if D == 2 { vec![-(one + one), T::lit(0.1), T::lit(0.3), T::p2(T::FAR) + T::p2(3)] } else { vec![-(one + one), T::lit(0.1), T::p2(T::FAR) + T::p2(3)] };
+    let from_one = |l: &[T]| -> Vec<u64> { let k1 = l.iter().position(|&v| v == one).expect("1.0 is a hot value") as i64; (0..l.len() as i64).map(|k| (k - k1).unsigned_abs()).collect() };
+    let boxes = hot_boxes::<T, D>(&hot, &from_one(&hot), &cold);
+    let points = hot_points::<T, D>(&hotp, &from_one(&hotp), &coldp);
+    let lim = T::p2(T::HUGE + 1);
+    let tiny_lim = T::p2(-T::HUGE);
+    let eps = f64of(T::p2(1 - T::MANT));
+    let in_set = |v: T, c: &[T]| c.iter().any(|&x| x == v);
+    for h in 0..D {
+        boxes[h].par_iter().for_each(|&(x, w)| {
+            let mut t = Tally::new();
+            let ib = || json!({"box[min,max]": jd(&x), "hot axis": G::AX[h]});
+            // ---- per box
+            let (mut sum_exact, mut diff_exact) = (true, true);
+            for i in 0..D { if two_sum(x[0][i], x[1][i]).1 != z { sum_exact = false; } if two_sum(x[1][i], -x[0][i]).1 != z { diff_exact = false; } }
+            t.class(if sum_exact { "box:min+max-exact" } else { "box:min+max-rounds" });
+            t.class(if diff_exact { "box:max-min-exact" } else { "box:max-min-rounds" });
+            t.eval(!sum_exact);
+            if let Some(c) = s.call(&st_c, &ib, || G::center(x)) {
+                for i in 0..D {
+                    if !(x[0][i] <= c[i] && c[i] <= x[1][i]) { report(s, &st_c, "centre-outside-the-box", w, || json!({"input": ib(), "axis": G::AX[i], "got": jd(&c)})); }
+                    let f = faithful(x[0][i], x[1][i]);
+                    if !f.iter().any(|&sm| in_set(c[i], &halves(sm))) { report(s, &st_c, if sum_exact { "not-the-midpoint" } else { "not-a-faithful-rounding-of-the-midpoint" }, w, || json!({"input": ib(), "axis": G::AX[i], "got": jd(&c), "min+max lies in": jd(&f), "want": "half of it"})); }
+                }
+            }
+            t.eval(!diff_exact);
+            if let Some(g) = s.call(&st_s, &ib, || G::size(x)) {
+                for i in 0..D { let f = faithful(x[1][i], -x[0][i]); if !in_set(g[i], &f) { report(s, &st_s, if diff_exact { "wrong-extent" } else { "not-a-faithful-rounding-of-max-minus-min" }, w, || json!({"input": ib(), "axis": G::AX[i], "got": jd(&g), "max-min lies in": jd(&f)})); } }
+            }
+            t.eval(!diff_exact);
+            if let Some(g) = s.call(&st_h, &ib, || G::half_size(x)) {
+                for i in 0..D { let f = faithful(x[1][i], -x[0][i]); if !f.iter().any(|&d| in_set(g[i], &halves(d))) { report(s, &st_h, if diff_exact { "wrong-half-extent" } else { "not-a-faithful-rounding-of-half-the-extent" }, w, || json!({"input": ib(), "axis": G::AX[i], "got": jd(&g), "max-min lies in": jd(&f), "want": "half of it"})); } }
+            }
+            for (site, which) in [(&st_ir, 0), (&st_rf, 1)] {
+                t.eval(!diff_exact);
+                if let Some(g) = s.call(site, &ib, || if which == 0 { G::into_rect(x) } else { G::rect_from(x) }) {
+                    for i in 0..D { let f = faithful(x[1][i], -x[0][i]); if !(g[0][i] == x[0][i] && in_set(g[1][i], &f)) { report(s, site, "rect-denotes-a-different-set", w, || json!({"input": ib(), "axis": G::AX[i], "got[position,extent]": jd(&g), "max-min lies in": jd(&f)})); } }
+                }
+            }
+            // ---- per point: the nearest point by comparisons, the distance from the error-free differences
+            for (p, wpt) in &points[h] {
+                let mut want_p = *p;
+                for i in 0..D { if p[i] < x[0][i] { want_p[i] = x[0][i]; } else if p[i] > x[1][i] { want_p[i] = x[1][i]; } }
+                let ip = || json!({"box[min,max]": jd(&x), "p": jd(p)});
+                let moved = (0..D).filter(|&i| want_p[i] != p[i]).count();
+                run(s, &mut t, moved > 0, &st_p, "not-the-nearest-point-of-the-box", &ip, w + wpt, || G::proj(x, *p), &want_p);
+                // magnitude policy: every non-zero lane difference has a normal, finite square
+                let mut lanes: Vec<[T; 2]> = Vec::new();
+                let mut policy = true;
+                let mut sum = 0f64;
+                for i in 0..D { if want_p[i] != p[i] { let f = faithful(p[i], -want_p[i]); let a = f[0].abs(); if !(a >= tiny_lim && a <= lim) { policy = false; } let d = f64of(f[0]); sum += d * d; lanes.push([f[0].abs(), f[1].abs()]); } }
+                t.eval(moved > 0 && policy);
+                let Some(g) = s.call(&st_d, &ip, || G::dist(x, *p)) else { continue; };
+                if moved == 0 {
+                    t.class("distance:point-in-box");
+                    if g != z { report(s, &st_d, "non-zero-distance-for-a-point-of-the-box", w + wpt, || json!({"input": ip(), "got": jd(&g)})); }
+                } else if !policy {
+                    t.class("distance:square-leaves-the-normal-range-not-asserted");
+                } else if moved == 1 {
+                    // sqrt(fl(d*d)) == |d| exactly in binary floating point; d = fl(p - face) is a faithful difference
+                    let exact = lanes[0][0] == lanes[0][1];
+                    t.class(if exact { "distance:one-axis-exact-difference" } else { "distance:one-axis-rounded-difference" });
+                    if !in_set(g, &lanes[0]) { report(s, &st_d, "not-the-distance-to-the-nearest-point", w + wpt, || json!({"input": ip(), "got": jd(&g), "want one of": jd(&lanes[0]), "nearest point": jd(&want_p)})); }
+                } else {
+                    t.class("distance:several-axes");
+                    let want = sum.sqrt();
+                    let gd = f64of(g);
+                    if !(gd.is_finite() && (gd - want).abs() <= fl::K * eps * want) { report(s, &st_d, "not-the-distance-to-the-nearest-point", w + wpt, || json!({"input": ip(), "got": jd(&g), "want": want, "bound": fl::K * eps * want, "nearest point": jd(&want_p)})); }
+                }
+                if moved == 1 && policy && s.wants_sample() { s.sample(json!({"type": T::NAME, "box[min,max]": jd(&x), "p": jd(p), "nearest point": jd(&want_p), "distance must be one of": jd(&lanes[0])})); }
+            }
+            t.flush(s);
+        });
+        // ---- pairs (same hot axis): each component of the collision vector is a faithful face-to-face offset
+        // (quick tier: only the first two combinations of cold intervals; the hot interval still runs through the whole list)
+        let pb: Vec<(TB<T, D>, u64)> = if reduced_pairs { let nc = cold.len() * (cold.len() + 1) / 2; let per = nc.pow(D as u32 - 1); boxes[h].iter().enumerate().filter(|(k, _)| k % per < 2).map(|(_, b)| *b).collect() } else { boxes[h].clone() };
+        pb.par_iter().for_each(|&(xa, wa)| {
+            let mut t = Tally::new();
+            for &(xb, wb_) in &pb {
+                let inp = || json!({"self[min,max]": jd(&xa), "other[min,max]": jd(&xb)});
+                let Some(v) = s.call(&st_cv, &inp, || G::cv(xa, xb)) else { t.eval(true); continue; };
+                for i in 0..D {
+                    let (f1, f2) = (faithful(xa[1][i], -xb[0][i]), faithful(xa[0][i], -xb[1][i]));
+                    let exact = f1[0] == f1[1] && f2[0] == f2[1];
+                    t.eval(!exact);
+                    if i == h { t.class(if exact { "cv:exact-offsets" } else { "cv:rounded-offsets" }); }
+                    if !(in_set(v[i], &f1) || in_set(v[i], &f2)) { report(s, &st_cv, if exact { "translated-box-does-not-touch-on-the-axis" } else { "not-a-faithful-face-to-face-offset" }, wa + wb_, || json!({"input": inp(), "axis": G::AX[i], "collision_vector": jd(&v), "self.max-other.min lies in": jd(&f1), "self.min-other.max lies in": jd(&f2)})); }
+                }
+            }
+            t.flush(s);
+        });
+    }
+    s.meta(&format!("{} {}", G::AAB, T::NAME), json!({"hot values": jd(&hot), "hot point coordinates": hotp.len(), "cold values": jd(&cold), "cold point coordinates": jd(&coldp), "boxes per hot axis": boxes[0].len(), "points per hot axis": points[0].len()}));
+}
+
+/// model conversion rectangle -> box in the element type itself (the definition of "the converted value": max = position + extent)
+fn from_rect_t<T: El, const D: usize>(r: &TB<T, D>) -> TB<T, D> { let mut mx = r[0]; for i in 0..D { mx[i] = r[0][i] + r[1][i]; } [r[0], mx] }
+
+/// Every Rect method against the real Aab method, starting from the RECTANGLE: the box is position / position+extent computed by
+/// the harness in the element type (for floats this sum rounds, for unsigned integers nothing may go below zero), results are
+/// converted back with max-min in the element type.  A box-side panic (unsigned underflow, clamp of an inverted range) skips the case.
+fn rect_first<G: Geo<D>, T: El, const D: usize>(s: &Section, alphabet: &'static str, rects: &[(TB<T, D>, u64)], pts: &[([T; D], u64)], coords: &[(T, u64)]) {
+    let n = |m: &str| sr::<G, T, D>(m);
+    let (st_cp, st_c, st_k, st_ce, st_ep, st_mp, st_u, st_i, st_eu, st_ei, st_cv) = (n("contains_point"), n(G::CONTAINS_RECT), n(G::COLLIDES_RECT), n("center"), n("expanded_to_contain_point"), n("expand_to_contain_point"), n("union"), n("intersection"), n("expand_to_contain"), n("intersect"), n(G::CV_RECT));
+    let (st_ia, st_af) = (n(G::INTO_AAB), format!("{}::from({})<{}>", G::AAB, G::RECT, T::NAME));
+    let st_split: Vec<String> = (0..D).map(|i| n(&format!("split_at_{}", G::AX[i]))).collect();
+    const CL: &str = "differs-from-the-box-method-on-the-converted-value";
+    let conv: Vec<Option<TB<T, D>>> = rects.iter().map(|(r, _)| catch(|| from_rect_t(r)).ok()).collect();
+    (0..rects.len()).into_par_iter().for_each(|ai| {
+        let mut t = Tally::new();
+        let (ra, wa) = rects[ai];
+        let Some(xa) = conv[ai] else { t.class("rect:position+extent-leaves-the-type:skipped"); t.flush(s); return; };
+        t.class(alphabet);
+        let rounds = (0..D).any(|i| !(xa[1][i] - ra[0][i] == ra[1][i]));
+        t.class(if rounds { "rect:position+extent-rounds" } else { "rect:position+extent-exact" });
+        // want side under catch: Ok(v) -> compare, Err -> skip
+        macro_rules! cmp { ($site:expr, $inp:expr, $w:expr, $want:expr, $got:expr) => { match catch(|| $want) { Ok(want) => run(s, &mut t, true, $site, CL, $inp, $w, || $got, &want), Err(_) => t.class("box-side-panics:skipped") } } }
+        let inp = || json!({"alphabet": alphabet, "rect[position,extent]": jd(&ra)});
+        run(s, &mut t, true, &st_ia, "box-denotes-a-different-set", &inp, wa, || G::r_into_aab(ra), &xa);
+        run(s, &mut t, true, &st_af, "box-denotes-a-different-set", &inp, wa, || G::aab_from(ra), &xa);
+        cmp!(&st_ce, &inp, wa, G::center(xa), G::r_center(ra));
+        for axis in 0..D {
+            for (spx, wsp) in coords {
+                if !(xa[0][axis] <= *spx && *spx <= xa[1][axis]) { continue; }
+                let inp = || json!({"alphabet": alphabet, "rect[position,extent]": jd(&ra), "axis": G::AX[axis], "sp": jd(spx)});
+                t.class("rect,coordinate");
+                cmp!(&st_split[axis], &inp, wa + wsp, { let bx = G::split(xa, axis, *spx); [to_rect(&bx[0]), to_rect(&bx[1])] }, G::r_split(ra, axis, *spx));
+            }
+        }
+        for (px, wpx) in pts {
+            let w = wa + wpx;
+            let inp = || json!({"alphabet": alphabet, "rect[position,extent]": jd(&ra), "p": jd(px)});
+            t.class("rect,point");
+            cmp!(&st_cp, &inp, w, G::contains_point(xa, *px), G::r_contains_point(ra, *px));
+            cmp!(&st_ep, &inp, w, to_rect(&G::expanded_pt(xa, *px)), G::r_expanded_pt(ra, *px));
+            cmp!(&st_mp, &inp, w, to_rect(&G::expanded_pt(xa, *px)), G::r_expand_pt(ra, *px));
+        }
+        for (bi, (rb, wb_)) in rects.iter().enumerate() {
+            let Some(xb) = conv[bi] else { continue; };
+            let w = wa + wb_;
+            let inp = || json!({"alphabet": alphabet, "a[position,extent]": jd(&ra), "b[position,extent]": jd(rb)});
+            t.class("rect,rect");
+            cmp!(&st_c, &inp, w, G::contains(xa, xb), G::r_contains(ra, *rb));
+            cmp!(&st_k, &inp, w, G::collides(xa, xb), G::r_collides(ra, *rb));
+            cmp!(&st_u, &inp, w, to_rect(&G::union(xa, xb)), G::r_union(ra, *rb));
+            cmp!(&st_eu, &inp, w, to_rect(&G::union(xa, xb)), G::r_expand_to_contain(ra, *rb));
+            cmp!(&st_i, &inp, w, to_rect(&G::intersection(xa, xb)), G::r_intersection(ra, *rb));
+            cmp!(&st_ei, &inp, w, to_rect(&G::intersection(xa, xb)), G::r_intersect(ra, *rb));
+            cmp!(&st_cv, &inp, w, G::cv(xa, xb), G::r_cv(ra, *rb));
+            if rounds && s.wants_sample() { s.sample(json!({"alphabet": alphabet, "type": T::NAME, "a[position,extent]": jd(&ra), "a as box (position, position+extent in the type)": jd(&xa), "b[position,extent]": jd(rb), "methods_compared": 7})); }
+        }
+        t.flush(s);
+    });
+}
+/// one-hot-axis rectangles: hot axis through every (position, extent) of pos x ext, the other axes through `cold`
+fn hot_rects<T: Copy, const D: usize>(pos: &[T], ext: &[T], cold: &[(T, T)]) -> Vec<(TB<T, D>, u64)> {
+    let mut o = Vec::new();
+    for h in 0..D { for (i, &p) in pos.iter().enumerate() { for (j, &e) in ext.iter().enumerate() { for c in 0..cold.len().pow(D as u32 - 1) {
+        let mut r = [[p; D], [e; D]]; let (mut k, mut w) = (c, (i + j) as u64);
+        for a in 0..D { if a != h { let (cp, ce) = cold[k % cold.len()]; w += (k % cold.len()) as u64; k /= cold.len(); r[0][a] = cp; r[1][a] = ce; } }
+        o.push((r, w));
+    } } } }
+    o
+}
+fn rect_first_float<G: Geo<D>, T: Fp, const D: usize>(s: &Section, alphabet: &'static str, thorough: bool) {
+    let one = <T as One>::one();
+    let z = one - one;
+    let e = T::p2(1 - T::MANT);
+    let pos = vec![T::lit(-0.3), z, T::lit(0.1), one, T::p2(T::FAR), T::p2(T::MANT)];
+    // 0.75 ulp(1): 1 + it rounds up to 1 + ulp; 0.1, 0.2: the classic 0.1 + 0.2 != 0.3; 3: 2^MANT + 3 is a tie
+    let ext = vec![T::lit(-0.1), z, e * T::lit(0.75), T::lit(0.1), T::lit(0.2), one, one + one, one + one + one];
+    let cold: Vec<(T, T)> = if D == 2 || thorough { vec![(z, one), (T::lit(0.1), T::lit(0.2)), (one, T::lit(-0.1))] } else { vec![(T::lit(0.1), T::lit(0.2)), (one, T::lit(-0.1))] };
+    let rects = hot_rects::<T, D>(&pos, &ext, &cold);
+    let mut hv: Vec<T> = pos.iter().flat_map(|&p| ext.iter().map(move |&x| p + x)).chain(pos.iter().copied()).collect();
+    hv.sort_by(|a, b| a.partial_cmp(b).unwrap()); hv.dedup_by(|a, b| a == b);
+    let hv = with_neighbours(&hv);
+    let coldp: Vec<T> = if D == 2 || thorough { vec![z, T::lit(0.1), T::lit(0.1) + T::lit(0.2), one] } else { vec![T::lit(0.1), T::lit(0.1) + T::lit(0.2)] };
+    let mut pts: Vec<([T; D], u64)> = Vec::new();
+    for v in hot_points::<T, D>(&hv, &(0..hv.len() as u64).collect::<Vec<_>>(), &coldp) { pts.extend(v); }
+    let coords: Vec<(T, u64)> = hv.iter().enumerate().map(|(k, &v)| (v, k as u64)).chain(coldp.iter().map(|&v| (v, 0))).collect();
+    rect_first::<G, T, D>(s, alphabet, &rects, &pts, &coords);
+    s.meta(&format!("{} {}", G::RECT, alphabet), json!({"positions": jd(&pos), "extents": jd(&ext), "cold (position,extent)": jd(&cold), "rects": rects.len(), "points": pts.len(), "split coordinates": coords.len()}));
+}
+fn rect_first_u8<G: Geo<D>, const D: usize>(s: &Section, alphabet: &'static str) {
+    let (pos, ext): (Vec<u8>, Vec<u8>) = if D == 2 { (vec![0, 1, 100, 250], vec![0, 1, 2, 5]) } else { (vec![0, 250], vec![0, 1, 5]) };
+    let mut rects: Vec<(TB<u8, D>, u64)> = Vec::new();
+    let iv: Vec<(u8, u8)> = pos.iter().flat_map(|&p| ext.iter().map(move |&e| (p, e))).collect();
+    for c in 0..iv.len().pow(D as u32) { let mut r = [[0u8; D]; 2]; let mut k = c; let mut w = 0; for a in 0..D { let (p, e) = iv[k % iv.len()]; w += (k % iv.len()) as u64; k /= iv.len(); r[0][a] = p; r[1][a] = e; } rects.push((r, w)); }
+    let pc: Vec<u8> = if D == 2 { vec![0, 1, 2, 3, 6, 99, 100, 101, 105, 249, 250, 251, 255] } else { vec![0, 1, 5, 6, 249, 250, 255] };
+    let mut pts: Vec<([u8; D], u64)> = Vec::new();
+    for c in 0..pc.len().pow(D as u32) { let mut p = [0u8; D]; let mut k = c; let mut w = 0; for a in 0..D { p[a] = pc[k % pc.len()]; w += (k % pc.len()) as u64 + 1; k /= pc.len(); } pts.push((p, w)); }
+    let coords: Vec<(u8, u64)> = pc.iter().enumerate().map(|(k, &v)| (v, k as u64)).collect();
+    rect_first::<G, u8, D>(s, alphabet, &rects, &pts, &coords);
+    s.meta(&format!("{} {}", G::RECT, alphabet), json!({"positions": jd(&pos), "extents": jd(&ext), "rects": rects.len(), "points": pts.len()}));
+}
+
+// ------------------------------------------------------------------------------------------------
 
 fn main() {
     let rep = Report::start("C13", "exploration");
@@ -1458,6 +1763,29 @@ fn main() {
             one!(f64, T9_F64_FINITE, "f64:finite-extreme"); one!(f64, T9_F64_INF, "f64:infinite"); one!(f32, T9_F32, "f32:infinite");
         } } }
         tables!(D2, 2, &e2s); tables!(D3, 3, &e3s);
+        // second audit: the other members of the scalar Clamp family (projected_point is per-type code) and float corners that are
+        // ADJACENT floats (corner k <-> k-th value; the half-grid coordinates between them have no float and are left out)
+        macro_rules! tables2 { ($G:ident, $D:literal, $us:expr) => { for u in $us {
+            let base = u.base;
+            macro_rules! one { ($T:ty, $tab:expr, $name:literal) => {{ let tab: Vec<$T> = sub9(&$tab, u.nc); ordered_ops::<$G, $T, $D>(s, u, $name, &move |c: i32| tab.get((c - base) as usize).copied()); }} }
+            one!(i8, t9_signed!(i8), "i8:extreme"); one!(i16, t9_signed!(i16), "i16:extreme"); one!(isize, t9_signed!(isize), "isize:extreme");
+            one!(u16, t9_unsigned!(u16), "u16:extreme"); one!(u32, t9_unsigned!(u32), "u32:extreme"); one!(u64, t9_unsigned!(u64), "u64:extreme"); one!(usize, t9_unsigned!(usize), "usize:extreme");
+            one!(Wrapping<i8>, t9_signed!(i8).map(Wrapping), "Wrapping<i8>:extreme"); one!(Wrapping<i16>, t9_signed!(i16).map(Wrapping), "Wrapping<i16>:extreme"); one!(Wrapping<i32>, t9_signed!(i32).map(Wrapping), "Wrapping<i32>:extreme");
+            one!(Wrapping<i64>, t9_signed!(i64).map(Wrapping), "Wrapping<i64>:extreme"); one!(Wrapping<isize>, t9_signed!(isize).map(Wrapping), "Wrapping<isize>:extreme");
+            one!(Wrapping<u8>, t9_unsigned!(u8).map(Wrapping), "Wrapping<u8>:extreme"); one!(Wrapping<u16>, t9_unsigned!(u16).map(Wrapping), "Wrapping<u16>:extreme"); one!(Wrapping<u32>, t9_unsigned!(u32).map(Wrapping), "Wrapping<u32>:extreme");
+            one!(Wrapping<u64>, t9_unsigned!(u64).map(Wrapping), "Wrapping<u64>:extreme"); one!(Wrapping<usize>, t9_unsigned!(usize).map(Wrapping), "Wrapping<usize>:extreme");
+            macro_rules! adj { ($T:ty, $tab:expr, $name:literal) => {{ let tab: Vec<$T> = $tab.to_vec(); ordered_ops::<$G, $T, $D>(s, u, $name, &move |c: i32| if (c - base) % 2 == 0 { tab.get(((c - base) / 2) as usize).copied() } else { None }); }} }
+            adj!(f64, [1.0 - f64::EPSILON / 2.0, 1.0, 1.0 + f64::EPSILON, 1.0 + 2.0 * f64::EPSILON, 1.0 + 3.0 * f64::EPSILON], "f64:adjacent-at-one");
+            adj!(f64, [-5e-324, 0.0, 5e-324, 1e-323, 1.5e-323], "f64:adjacent-subnormals");
+            adj!(f64, [9007199254740991.0, 9007199254740992.0, 9007199254740994.0, 9007199254740996.0, 9007199254740998.0], "f64:adjacent-at-2^53");
+            adj!(f32, [1.0 - f32::EPSILON / 2.0, 1.0, 1.0 + f32::EPSILON, 1.0 + 2.0 * f32::EPSILON, 1.0 + 3.0 * f32::EPSILON], "f32:adjacent-at-one");
+            adj!(f32, [-1e-45, 0.0, 1e-45, 3e-45, 4e-45], "f32:adjacent-subnormals");
+            adj!(f32, [16777215.0, 16777216.0, 16777218.0, 16777220.0, 16777222.0], "f32:adjacent-at-2^24");
+        } } }
+        tables2!(D2, 2, &e2s); tables2!(D3, 3, &e3s);
+        s.require_classes(&["i8:extreme", "i16:extreme", "isize:extreme", "u16:extreme", "u32:extreme", "u64:extreme", "usize:extreme", "Wrapping<i8>:extreme", "Wrapping<i16>:extreme", "Wrapping<i32>:extreme", "Wrapping<i64>:extreme", "Wrapping<isize>:extreme",
+            "Wrapping<u8>:extreme", "Wrapping<u16>:extreme", "Wrapping<u32>:extreme", "Wrapping<u64>:extreme", "Wrapping<usize>:extreme", "f64:adjacent-at-one", "f64:adjacent-subnormals", "f64:adjacent-at-2^53", "f32:adjacent-at-one", "f32:adjacent-subnormals", "f32:adjacent-at-2^24"]);
+        s.meta("second audit", json!("added: i8 i16 isize u16 u32 u64 usize and Wrapping<every primitive integer> extreme tables (same shape as the i32 / u8 tables), and float tables whose corner values are adjacent floats at 1, at 0 (subnormals) and at the end of the integer range"));
         s.meta("tables", json!({"i32": jd(&T9_I32), "i64": jd(&T9_I64), "u8": jd(&T9_U8), "f64 finite": jd(&T9_F64_FINITE), "f64 infinite": jd(&T9_F64_INF), "f32": jd(&T9_F32),
             "universes": {"dense 2D": d2s.iter().map(|u| u.describe()).collect::<Vec<_>>(), "dense 3D": d3s.iter().map(|u| u.describe()).collect::<Vec<_>>(), "extreme 2D": e2s.iter().map(|u| u.describe()).collect::<Vec<_>>(), "extreme 3D": e3s.iter().map(|u| u.describe()).collect::<Vec<_>>()},
             "not asserted": "center / size / half_size / collision vector / Rect conversions at these magnitudes: min+max and max-min leave the type (overflow of the element type, outside the property's small-grid quantifier)"}));
@@ -1502,6 +1830,20 @@ fn main() {
         sequences::<D2, i32, 2>(s, &q2); sequences::<D2, X, 2>(s, &q2); sequences::<D2, f64, 2>(s, &q2);
         sequences::<D3, i32, 3>(s, &q3); sequences::<D3, X, 3>(s, &q3); sequences::<D3, f64, 3>(s, &q3);
         s.meta("universes", json!({"2D": q2.describe(), "3D": q3.describe()}));
+    });
+    // ---- sections added by the second audit (out/AUDIT2.md) ----
+    rep.section("floats off the exact grid: centre, size, half size, conversion to a rectangle, nearest point, distance, collision vector",
+        "f64 and f32 boxes in a one-hot-axis design: for every axis h the h interval runs through every lo <= hi of a hot list (adjacent floats at 1, boxes nearly symmetric about 0, 0.1 / 0.3, tiny 2^-100 (f32 2^-30), the least subnormal, 2^40+{0,3,4} (f32 2^20), 2^53+{0,2,4} (f32 2^24), +-2^500 (f32 2^60), 3D quick: three values fewer) and the other axes through every interval of a short cold list; points: hot axis through every hot value and its two neighbouring floats, cold axes through a short list. Oracles are exact by construction from error-free transformations (two_sum) and comparisons: centre lies in [min,max] and is half of a faithful rounding of min+max (the exact midpoint when min+max is a float); size / Rect extent is a faithful rounding of max-min, position == min; half size is half of that; projected_point == lanewise nearest by comparisons; distance == 0 for points of the box, == |faithful(p - face)| when one axis moves (sqrt(fl(d*d)) == |d| in binary floating point), within 256 eps of sqrt(sum of squared faithful differences) when several move; every ordered pair of boxes with the same hot axis (quick: two cold combinations): each collision vector component is a faithful rounding of self.max-other.min or of self.min-other.max (exactly that offset when it is a float, which is what makes the translated box touch). Magnitude policy: the distance is asserted only when every non-zero lane difference d has 2^-HUGE <= |d| <= 2^(HUGE+1) (d*d a normal finite number), all inputs have representable squares. non-trivial: min+max / max-min rounds, the point is outside, an offset rounds", true, false, |s| {
+        s.require_classes(&["box:min+max-exact", "box:min+max-rounds", "box:max-min-exact", "box:max-min-rounds", "distance:point-in-box", "distance:one-axis-exact-difference", "distance:one-axis-rounded-difference", "distance:several-axes", "distance:square-leaves-the-normal-range-not-asserted", "cv:exact-offsets", "cv:rounded-offsets"]);
+        float_arith::<D2, f64, 2>(s, false, !th); float_arith::<D2, f32, 2>(s, false, !th);
+        float_arith::<D3, f64, 3>(s, !th, !th); float_arith::<D3, f32, 3>(s, !th, !th);
+    });
+    rep.section("every Rect method equals the Aab method, from the rectangle side: float sums that round, unsigned integers",
+        "the rectangle is the input; the box is (position, position + extent) computed by the harness in the element type, results go back through (min, max - min) in the element type: into_aab* / Aab::from(Rect) == that box; center, split_at_* (cut inside the converted box), contains_point, expanded_to_contain_point, expand_to_contain_point, contains_rect*, collides_with_rect*, union, expand_to_contain, intersection, intersect, collision_vector_with_rect* == the real Aab method on the converted value(s). f64 / f32: one-hot-axis rectangles, positions {-0.3, 0, 0.1, 1, 2^40 (2^20), 2^53 (2^24)} x extents {-0.1, 0, 0.75 ulp(1), 0.1, 0.2, 1, 2, 3}, points = every position, position+extent and their neighbouring floats; u8 (no Rect method ran on an unsigned type before): positions and extents next to 0 and 255, cases where the box side leaves the type (a panic under overflow checks) are skipped. non-trivial: every evaluation", true, false, |s| {
+        s.require_classes(&["f64:inexact", "f32:inexact", "u8:edges", "rect:position+extent-rounds", "rect:position+extent-exact", "rect,point", "rect,coordinate", "rect,rect", "box-side-panics:skipped"]);
+        rect_first_float::<D2, f64, 2>(s, "f64:inexact", th); rect_first_float::<D2, f32, 2>(s, "f32:inexact", th);
+        rect_first_float::<D3, f64, 3>(s, "f64:inexact", th); rect_first_float::<D3, f32, 3>(s, "f32:inexact", th);
+        rect_first_u8::<D2, 2>(s, "u8:edges"); rect_first_u8::<D3, 3>(s, "u8:edges");
     });
     std::process::exit(rep.finish());
 }
